@@ -565,7 +565,10 @@ fn write_advance_loc<W: Writer>(
 }
 
 fn write_nop<W: Writer>(w: &mut W, len: usize, align: u8) -> Result<()> {
-    debug_assert_eq!(align & (align - 1), 0);
+    // Entries are padded to the address size, which must be one that can be written.
+    if !matches!(align, 1 | 2 | 4 | 8) {
+        return Err(Error::UnsupportedWordSize(align));
+    }
     let tail_len = (!len + 1) & (align as usize - 1);
     for _ in 0..tail_len {
         w.write_u8(constants::DW_CFA_nop.0)?;
